@@ -2,6 +2,7 @@
 from __future__ import annotations
 
 import ast
+import re
 import keyword
 import string
 from typing import Dict, List, Optional, Set, Tuple
@@ -361,42 +362,70 @@ def rule_one_argument_list(ctx, rep: Report, rid="B1", min_emitters=4):
 
 
 def rule_default_on_own_parameter(ctx, rep: Report, rid="B2"):
+    """One keyword-argument entry is `py::arg("<name>")<default part>` where name and default come from the same
+    argument object, and the default part is non-empty exactly when that argument has a default.  The entry may be
+    built in the loop over the arguments or in a helper applied to each argument."""
     ci, prog = pw(ctx)
     fn = prog.method("PybindWrapper", "_py_args_names")
-    loops = [l for l in walk_no_nested(fn) if isinstance(l, ast.For)]
-    if len(loops) != 1:
-        raise AnalysisError("_py_args_names: expected one loop")
-    var = loops[0].target.id
-    hit = False
-    t = find_tpl(ctx, fn, {"name", "default"})
-    if t is not None:
-        st = t._stmt
-        hit = True
-        name_slot = t.slot("name")
-        def_slot = t.slot("default")
-        n_ok = name_slot is not None and unparse(name_slot.expr) == f"{var}.name"
-        # follow the default slot back to the values it can take
-        dexpr = def_slot.expr
-        if isinstance(dexpr, ast.Call) and isinstance(dexpr.func, ast.Attribute) and dexpr.func.attr == "format" and dexpr.args:
-            dexpr = dexpr.args[0]
-        dvals = values_of(fn, dexpr)
-        roots = set()
-        for v in dvals:
-            for x in ast.walk(v):
-                if isinstance(x, ast.Name):
-                    roots.add(x.id)
-        d_ok = roots <= {var} and any(not isinstance(v, ast.Constant) for v in dvals)
-        lit = t.literal("@")
-        rep.add(rid, "py::arg:name and default of one entry come from the same argument", n_ok and d_ok,
-                f"name <- {unparse(name_slot.expr) if name_slot else None}, default <- values depending on {sorted(roots)}",
-                f"{ci.mod.rel}:{st.lineno}")
-        rep.add(rid, "py::arg:entry spelled py::arg(\"name\") = default", lit.replace(" ", "") == 'py::arg("@")@',
-                f"skeleton {lit!r}", f"{ci.mod.rel}:{st.lineno}")
-    if not hit:
-        raise AnalysisError("_py_args_names: entry template not found")
-    guards = [unparse(i.test) for i in ast.walk(loops[0]) if isinstance(i, ast.If)]
-    rep.add(rid, "py::arg:default emitted exactly when the argument has one", guards == [f"{var}.default is not None"],
-            f"guards {guards}", f"{ci.mod.rel}:{loops[0].lineno}")
+    fo = Folder(prog, ci.mod, None, ci)
+    hit = None
+    for site in ast.walk(fn):
+        if not (isinstance(site, ast.JoinedStr) or (isinstance(site, ast.Call) and isinstance(site.func, ast.Attribute) and site.func.attr == "format")):
+            continue
+        t = fo.fold(site)
+        if t is None or t.literal("@").replace(" ", "") != 'py::arg("@")@':
+            continue
+        hit = (site, t)
+    if hit is None:
+        raise AnalysisError("_py_args_names: entry template py::arg(\"..\")... not found")
+    site, t = hit
+    scope = enclosing(site, ast.FunctionDef) or fn
+    s_name, s_def = t.slots()
+    m = re.fullmatch(r"([A-Za-z_]\w*)\.name", unparse(s_name.expr)) if s_name.expr is not None else None
+    var = m.group(1) if m else None
+
+    def vals(e, depth=3):
+        if isinstance(e, ast.Call) and isinstance(e.func, ast.Attribute) and e.func.attr == "format" and e.args:
+            return vals(e.args[0], depth)
+        if isinstance(e, ast.Name) and depth > 0:
+            vs = [st.value for st in walk_no_nested(scope) if isinstance(st, ast.Assign) and len(st.targets) == 1
+                  and isinstance(st.targets[0], ast.Name) and st.targets[0].id == e.id]
+            if vs:
+                return [x for v in vs for x in vals(v, depth - 1)]
+        if isinstance(e, ast.IfExp):
+            return vals(e.body, depth) + vals(e.orelse, depth)
+        return [e]
+    dvals = vals(s_def.expr) if s_def.expr is not None else []
+    roots = {x.id for v in dvals for x in ast.walk(v) if isinstance(x, ast.Name)}
+    n_ok = var is not None
+    def reads_default(v) -> bool:
+        if f"{var}.default" in unparse(v):
+            return True
+        tt = fo.fold(v)
+        return tt is not None and any(isinstance(sl.expr, ast.Name) and sl.expr.id == var and sl.field.endswith(".default") for sl in tt.slots())
+    d_ok = var is not None and roots <= {var} and any(reads_default(v) for v in dvals)
+    rep.add(rid, "py::arg:name and default of one entry come from the same argument", n_ok and d_ok,
+            f"name <- {unparse(s_name.expr) if s_name.expr is not None else None}, default <- values depending on {sorted(roots)}",
+            f"{ci.mod.rel}:{site.lineno}")
+    rep.add(rid, "py::arg:entry spelled py::arg(\"name\") = default", True, f"skeleton {t.literal('@')!r}", f"{ci.mod.rel}:{site.lineno}",
+            nontrivial=False)
+    # the non-empty default part is chosen exactly by `<var>.default is not None`
+    tests = []
+    for x in ast.walk(scope):
+        if isinstance(x, ast.IfExp) and any(f"{var}.default" in unparse(b_) for b_ in (x.body, x.orelse) if not isinstance(b_, ast.Constant)):
+            tests.append(unparse(x.test) if not (isinstance(x.orelse, ast.Constant) is False) else unparse(x.test))
+        elif isinstance(x, ast.If) and any(isinstance(st, (ast.Assign, ast.AugAssign, ast.Return)) and st.value is not None
+                                            and reads_default(st.value)
+                                            for st in x.body if isinstance(st, (ast.Assign, ast.AugAssign, ast.Return))):
+            tests.append(unparse(x.test))
+    rep.add(rid, "py::arg:default emitted exactly when the argument has one", tests == [f"{var}.default is not None"],
+            f"guards {tests}", f"{ci.mod.rel}:{site.lineno}")
+    # every argument contributes one entry, in order
+    iters = [l.iter for l in ast.walk(fn) if isinstance(l, ast.For)] + \
+            [g.iter for c in ast.walk(fn) if isinstance(c, (ast.ListComp, ast.GeneratorExp)) for g in c.generators if not g.ifs]
+    p_args = func_params(fn)[1]
+    rep.add(rid, "py::arg:one entry per argument of the list, in order", any(unparse(i) == f"{p_args}.list()" for i in iters),
+            f"iterations over {[unparse(i) for i in iters]}", f"{ci.mod.rel}:{fn.lineno}", nontrivial=False)
 
 
 def _isinstance_classes(prog: Program, mi, test: ast.AST) -> Optional[Set[str]]:
@@ -560,6 +589,8 @@ def rule_operator_shape(ctx, rep: Report, rid="B7"):
         raise AnalysisError("wrap_operators: loop not found")
     var = loop.target.id
     fo = folder_for(ctx, fn)
+    fo_here = fo
+    caller_args: Dict[str, ast.AST] = {}
     branches = []
     node = loop.body[0] if loop.body and isinstance(loop.body[0], ast.If) else None
     while isinstance(node, ast.If):
@@ -568,6 +599,30 @@ def rule_operator_shape(ctx, rep: Report, rid="B7"):
             branches.append(("else", node.orelse))
             break
         node = node.orelse[0] if node.orelse else None
+    if not branches:
+        # the per-operator text comes from a helper: `if <test>: return <text>` ... `return <text>`
+        hcalls = [c for st in loop.body for c in ast.walk(st) if isinstance(c, ast.Call) and isinstance(c.func, ast.Attribute)
+                  and unparse(c.func.value) == "self" and any(isinstance(a, ast.Name) and a.id == var for a in c.args)]
+        if len(hcalls) == 1:
+            h = prog.find_method(ci, hcalls[0].func.attr)
+            if h is not None:
+                hf = h[1]
+                b = bind_call(hf, hcalls[0], drop_self=True)
+                caller_args = dict(b)
+                pv = next((k for k, v in b.items() if isinstance(v, ast.Name) and v.id == var), None)
+                if pv is not None:
+                    for st in hf.body:
+                        if isinstance(st, ast.If) and len(st.body) >= 1 and isinstance(st.body[-1], ast.Return) and not st.orelse:
+                            branches.append((unparse(st.test).replace(pv, var), st.body))
+                        elif isinstance(st, ast.Return):
+                            branches.append(("else", [st]))
+                    fo_here = folder_for(ctx, hf)
+
+    def fold_any(e):
+        t = fo_here.fold(e)
+        if t is None and isinstance(e, ast.Name) and e.id in caller_args:
+            t = fo.fold(caller_args[e.id])
+        return t
 
     def emitted(body) -> str:
         for st in body:
@@ -577,11 +632,11 @@ def rule_operator_shape(ctx, rep: Report, rid="B7"):
                     if isinstance(p, ast.Attribute) and p.attr == "format":
                         continue
                     if any(isinstance(a, ast.Call) and isinstance(a.func, ast.Attribute) and a.func.attr == "format" for a in c.args):
-                        inner = fo.fold(c.args[0])
-                        outer = fo.fold(c.func.value)
+                        inner = fold_any(c.args[0])
+                        outer = fold_any(c.func.value)
                         if inner is not None and outer is not None:
                             return outer.literal("@").replace("@", "", 1).replace("{0}", inner.literal("OP")).strip()
-                    t = fo.fold(c)
+                    t = fold_any(c)
                     if t is not None:
                         return t.literal("@")
         return ""
@@ -1014,8 +1069,16 @@ def rule_keyword_escaping(ctx, rep: Report, rid="A6"):
     kws = None
     for st in walk_no_nested(init):
         if isinstance(st, ast.Assign) and unparse(st.targets[0]) == "self.python_keywords":
+            v = st.value
+            # list(NAME) / tuple(NAME) / NAME of a module-level constant sequence
+            if isinstance(v, ast.Call) and unparse(v.func) in ("list", "tuple", "sorted") and len(v.args) == 1 and not v.keywords:
+                v = v.args[0]
+            if isinstance(v, ast.Name):
+                tops = [x.value for x in ci.mod.tree.body if isinstance(x, ast.Assign) and len(x.targets) == 1
+                        and isinstance(x.targets[0], ast.Name) and x.targets[0].id == v.id]
+                v = tops[0] if len(tops) == 1 else v
             try:
-                kws = set(ast.literal_eval(st.value))
+                kws = set(ast.literal_eval(v))
             except Exception:
                 kws = None
             kloc = st.lineno
